@@ -147,6 +147,7 @@ def make_harness(mod, desc, kf_active, twin=False):
         "    return _run({%s})\n"
     ) % (sig, pre, dct)
     bool_names = [n for n, k, _, _ in params if k == "bool"]
+    all_concrete = bool(params) and all(k in ("sel", "bool") for _, k, _, _ in params) and not getattr(mod, "KEEP_TRACING", False)
     sel_names = [(n, lo, hi) for n, k, lo, hi in params if k == "sel"]
 
     def _run(x):
@@ -167,7 +168,16 @@ def make_harness(mod, desc, kf_active, twin=False):
             x[b] = lo
         ctx = Ctx(native=False, kf_active=kf_active, twin=twin)
         try:
-            clause = mod.body(ctx, desc, x)
+            if all_concrete:
+                # every input is a bisected selector or a native bool: nothing
+                # symbolic can reach the body, so it runs without the tracing
+                # interpreter (the solver still decides which selector values exist)
+                from crosshair.tracers import NoTracing
+
+                with NoTracing():
+                    clause = mod.body(ctx, desc, x)
+            else:
+                clause = mod.body(ctx, desc, x)
         except Exception as e:  # noqa: BLE001 - CrossHair control flow is BaseException
             clause = "harness-exception:%s:%s" % (type(e).__name__, str(e)[:80])
         if ctx.nontrivial:
